@@ -121,8 +121,10 @@ func ObserveThesaurus(seg segment.Segment, name string, except *roaring.Bitmap) 
 		}
 		order = append(order, e.Term)
 	}
+	var key []byte // ONE key buffer, overwritten in place for every lookup (callers may do that)
 	for _, t := range order {
-		sl, err := th.SynonymsList([]byte(t), except, nil)
+		key = append(key[:0], t...)
+		sl, err := th.SynonymsList(key, except, nil)
 		if err != nil {
 			return nil, nil, err
 		}
@@ -179,11 +181,13 @@ func observe(seg segment.Segment) (*spec.Obs, error) {
 		if d.Cardinality() != len(terms) {
 			return nil, fmt.Errorf("INCONSISTENT: Dictionary(%q).Cardinality()=%d but iteration yields %d terms", f, d.Cardinality(), len(terms))
 		}
+		var key []byte // ONE key buffer per dictionary, overwritten in place for every lookup
 		for i, t := range terms {
+			key = append(key[:0], t...)
 			if i > 0 && terms[i-1] >= t {
 				return nil, fmt.Errorf("INCONSISTENT: Dictionary(%q) terms not strictly ascending: %q then %q", f, terms[i-1], t)
 			}
-			pl, err := d.PostingsList([]byte(t), nil, nil)
+			pl, err := d.PostingsList(key, nil, nil)
 			if err != nil {
 				return nil, fmt.Errorf("PostingsList(%q,%q): %w", f, t, err)
 			}
@@ -197,7 +201,7 @@ func observe(seg segment.Segment) (*spec.Obs, error) {
 			if CheckDictCounts && counts[i] != uint64(len(hits)) {
 				return nil, fmt.Errorf("INCONSISTENT: dictionary entry (%q,%q) Count=%d but postings list has %d hits", f, t, counts[i], len(hits))
 			}
-			ok, err := d.Contains([]byte(t))
+			ok, err := d.Contains(key)
 			if err != nil || !ok {
 				return nil, fmt.Errorf("INCONSISTENT: Contains(%q,%q)=%v,%v for an enumerated term", f, t, ok, err)
 			}
